@@ -21,10 +21,11 @@ def devices(h, faults=None, motor_delay=0.1, det_delay=0.05):
     det = Det("det", lg, faults, delay=det_delay, motors=[m1, m2])
     det2 = Det("det2", lg, faults, delay=None, motors=[m1])
     sig = Sig("sig", lg, faults)
+    sig2 = Sig("sig2", lg, faults)
     fly = Flyer("fly", lg, faults, delay=det_delay)
     lm = LocMotor("lm", lg, faults, delay=motor_delay)
     kd = {f"kdet{i}": Det(f"kdet{i}", lg, faults, delay=None, motors=[m1]) for i in range(4)}
-    return {"m1": m1, "m2": m2, "det": det, "det2": det2, "sig": sig, "fly": fly, "lm": lm, **kd}
+    return {"m1": m1, "m2": m2, "det": det, "det2": det2, "sig": sig, "fly": fly, "lm": lm, "sig2": sig2, **kd}
 
 
 def P(h, *what):
@@ -186,6 +187,28 @@ def p_mon2(h, d):
         return (yield from body())
 
     return scheduled()
+
+
+def p_mon_closeleft(h, d):
+    """two monitored signals still monitored when the run is closed (close_run has to remove them itself)."""
+    sig, det = d["sig"], d["det"]
+    sig2 = d["sig2"]
+
+    def body():
+        yield Msg("open_run")
+        yield Msg("monitor", sig, name="sig_mon")
+        yield Msg("monitor", sig2, name="sig2_mon")
+        yield Msg("checkpoint")
+        yield Msg("trigger", det, group="t")
+        yield Msg("wait", None, group="t")
+        yield Msg("create", name="primary")
+        yield Msg("read", det)
+        yield Msg("save")
+        yield Msg("close_run")
+        yield Msg("null")
+        P(h, "body-complete")
+
+    return body()
 
 
 def p_neverclose(h, d):
@@ -583,6 +606,7 @@ CORPUS = {
     "custom_mon": p_custom_mon,
     "mixed": p_mixed,
     "mon2": p_mon2,
+    "mon_closeleft": p_mon_closeleft,
     "responses": p_responses,
     "neverclose": p_neverclose,
     "norun": p_norun,
